@@ -244,12 +244,15 @@ def fill(tmpl, x, atom):
     return tmpl.format(x=x, e=e, e2=e2, f=f, u=u)
 
 
-def list_chain_programs(depth, atoms=None):
+QUICK_SKIPS = ("push-neg", "from", "dedup", "mul0", "remove-all")  # left to the thorough tier (quick is sized for < 60 s: one chain program costs ~0.25 s of CPU)
+
+
+def list_chain_programs(depth, atoms=None, skip=()):
     progs = []
     ops = dict(LIST_OPS)
     for atom in (atoms or ATOMS):
         for k in range(depth + 1):
-            for seq in itertools.product([o for o, _ in LIST_OPS], repeat=k):
+            for seq in itertools.product([o for o, _ in LIST_OPS if o not in skip], repeat=k):
                 if atom == "str2" and "push-neg" in seq:
                     continue
                 pid = f"L_{atom}_{'_'.join(seq) or 'atom'}".replace("-", "")
@@ -410,18 +413,27 @@ def pack(bindings, prelude, family, per=24):
 # ------------------------------------------------------------------------------------------------
 # keys
 # ------------------------------------------------------------------------------------------------
+def opclass(seq, term=None):
+    """class of an operation sequence in a key: exact up to two operations (one before a terminal), otherwise
+    `*.` + the last two (the last one before a terminal): the operations that produce the operands of the failing one"""
+    keep = 1 if term else 2
+    if len(seq) <= keep:
+        return ".".join(seq) or "atom"
+    return "*." + ".".join(seq[-keep:])
+
+
 def key_str(key, reasons):
     r = "+".join(sorted(reasons)) or "member"
     fam = key[0]
     if fam in ("L", "Lnested"):
         _, atom, seq, term = key
-        s = f"{'list-chain' if fam == 'L' else 'list-nested'}:{atom}:{'.'.join(seq) or 'atom'}"
+        s = f"{'list-chain' if fam == 'L' else 'list-nested'}:{atom}:{opclass(seq, term)}"
         if term:
             s += f":{term}"
         return f"{r}:{s}"
     if fam == "Lindex":
         _, atom, seq, i = key
-        return f"{r}:list-index:{atom}:{'.'.join(seq) or 'atom'}:{'negative' if i < 0 else 'non-negative'}"
+        return f"{r}:list-index:{atom}:{opclass(seq)}:{'negative' if i < 0 else 'non-negative'}"
     if fam == "N":
         if key[1] == "lit":
             return f"{r}:literal:{key[2]}"
@@ -498,7 +510,7 @@ def run(chk):
                                       "bindings": [[x.name, x.text, list(x.deps)] for x in p.bindings if x.name in close_deps(p, [n])]})
 
     # ---- lists ------------------------------------------------------------------------------------
-    lp = list_chain_programs(2 if quick else 3)
+    lp = list_chain_programs(2, skip=QUICK_SKIPS) if quick else list_chain_programs(3)
     sp = pack(scalar_bindings(1 if quick else 2), [], "scalar")
     up = pack(func_bindings(2 if quick else 3), [d for _, d in FUNCS], "func")
     cp = pack(choice_bindings(), [], "choice")
@@ -602,11 +614,13 @@ def run(chk):
             if not cls.startswith("raises-"):
                 chk.machinery(f"index {b.text} on a list of length {b.info['n']} was predicted to raise IndexError but: {o}")
                 continue
-        if any((cls, atom, seq[j:]) in oor_keys for j in range(1, len(seq) + 1)):
+        tainted = any((cls, atom, seq[:j]) in oor_keys or "length" in falses.get(("L", atom, seq[:j], None), (set(),))[0] for j in range(len(seq)))
+        if tainted or any((cls, atom, seq[j:]) in oor_keys for j in range(1, len(seq) + 1)):
+            # the inferred length was already wrong for a prefix of the chain, or the same operations without the leading one(s) show it
             counts.setdefault("index_classes_dominated", 0)
             counts["index_classes_dominated"] += 1
             continue
-        chk.violation(f"index-accepted-out-of-range:{cls}:{atom}:{'.'.join(seq) or 'atom'}",
+        chk.violation(f"index-accepted-out-of-range:{cls}:{atom}:{opclass(seq)}",
                       {"src": src, "binding": b.name, "index": b.info["i"], "real_length": b.info["n"], "inferred_length": b.info["n_inferred"], "cases": len(ws),
                        "bindings": [[x.name, x.text, list(x.deps)] for x in confirm[idx].bindings], "prelude": []},
                       f"`{b.text}` is accepted by the checker but the list has {b.info['n']} elements at run time (inferred length {b.info['n_inferred']}): {o.get('exc')}")
